@@ -338,7 +338,11 @@ def run_case(case: dict) -> CaseResult:
             def do_close():
                 tr = sess.dsess.transport
                 if how == "writefail":
-                    tr.write_fail = ("raise", OSError(32, "Broken pipe"))
+                    # (what a failing transport.write raises differs by loop: OSError from the selector loop's socket,
+                    # RuntimeError from uvloop on a closed handle / after write_eof)
+                    exc = {0: OSError(32, "Broken pipe"), 1: RuntimeError("unable to perform operation on <TCPTransport closed=True>; the handler is closed"),
+                           2: ConnectionResetError(104, "Connection reset by peer")}[int(case.get("wf_kind", 0)) % 3]
+                    tr.write_fail = ("raise", exc)
                     return
                 if how == "pingfail":
                     return  # nothing to inject: the device simply never answers the keepalive pings
@@ -527,6 +531,8 @@ def _case(draw, tier):
                     m[0] += 1
         if case["close"][1] not in ("writefail", "pingfail") and draw(st.integers(0, 2)) == 0:
             case["predisc"] = max(0, case["close"][0] - draw(st.sampled_from([0, 1, 2, 8, 100, 600])))
+    if case.get("close") and case["close"][1] == "writefail":
+        case["wf_kind"] = draw(st.integers(0, 2))
     if len(msgs) >= 2 and draw(st.integers(0, 2)) == 0:
         case["split"] = draw(st.lists(st.tuples(st.integers(1, len(msgs) - 1), st.sampled_from([1, 2, 3, 4, 5, 6])).map(list), min_size=1, max_size=4, unique_by=lambda x: x[0]))
     if draw(st.integers(0, 2)) == 0:
@@ -589,6 +595,9 @@ def enumerated(tier):
         for d in (1, 40, 200):
             for types in ([PONG], [PONG, 26]):
                 yield {"noise": False, "calls": [{"at": at, "types": types, "append": None, "stop": None, "timeout": 2}], "msgs": [[at + d, PONG, 0], [at + d + 300, PONG, 0]], "close": [0, "pingfail"]}
+    for wf in (1, 2):
+        for t in (0, 1, 5):
+            yield {"noise": False, "wf_kind": wf, "calls": [{"at": 0, "types": [26], "append": None, "stop": ["never"], "timeout": 1}, {"at": 4, "types": [25], "append": None, "stop": None, "timeout": 2}, {"at": 8, "types": [25], "append": None, "stop": None, "timeout": 2}], "msgs": [[3, 26, 1]], "close": [t, "writefail"]}
     for how in sorted(CLOSE_ERR):
         for t in (0, 1, 5, 256, 257):
             yield {"noise": False, "calls": [{"at": 0, "types": [26], "append": None, "stop": ["never"], "timeout": 1}, {"at": 4, "types": [25], "append": None, "stop": None, "timeout": 2}], "msgs": [[3, 26, 1]], "close": [t, how]}
